@@ -617,7 +617,7 @@ def case_strategy(ctx=None):
 
 
 def shard(ctx):
-    drive(ctx, case_strategy(ctx), check_case, ctx.share(800, 50000))
+    drive(ctx, case_strategy(ctx), check_case, ctx.share(2000, 50000))
 
 
 def replay(ctx, case):
